@@ -4,6 +4,7 @@ package static
 
 import (
 	"encoding/json"
+	"fmt"
 	"os"
 	"path/filepath"
 	"sort"
@@ -243,6 +244,16 @@ func TestVerifC03(t *testing.T) {
 		files := w.Files()
 		if files == nil {
 			files = map[string]string{}
+		}
+		// the generated texts of the first states go to the second opinion on the tokenizer (part TestVerifLexCross)
+		if i < out.Count(40, 400) {
+			dir := filepath.Join(os.Getenv("VERIF_OUT"), "lexfiles")
+			_ = os.MkdirAll(dir, 0o755)
+			for name, text := range files {
+				if strings.HasSuffix(name, ".conf") {
+					_ = os.WriteFile(filepath.Join(dir, fmt.Sprintf("%04d_%s", i, strings.ReplaceAll(strings.TrimPrefix(name, "/"), "/", "_"))), []byte(text), 0o644)
+				}
+			}
 		}
 		term, human := vsFileSetCase(files, plus)
 		human["cluster"] = c
